@@ -117,7 +117,9 @@ def ownership(ctx, rep, cfgs=None):
             for w in feasible_walks(P, f):
                 npaths += 1
                 _typestate(P, f, w, rep, rel, cap, relfn, size, OK, EMEM)
-        rep.instances(npaths, 20, 'constructor paths')
+        rep.instances(len(ctors), 4, 'allocating functions')
+        if npaths < 2 * len(ctors):
+            raise AnalysisBroken('fewer than two feasible paths per allocating function: path enumeration is vacuous')
         rep.info.setdefault('paths', {})[cfg] = npaths
         rep.info['constructors'] = ctors
 
